@@ -95,21 +95,23 @@ def _on_alarm(signum, frame):
 def _execute_guarded(prop, trace, rng):
     """prop.execute under a wall-clock alarm (single-threaded engines only): an operation of the code
     under test that does not terminate is a liveness violation, not a harness error."""
-    limit = getattr(prop, "RUN_DEADLINE_S", 12.0)
+    # CPU time of this process, not wall time: waiting (for the reference server, for a loaded
+    # machine) never fires it, a loop inside the code under test does
+    limit = getattr(prop, "RUN_DEADLINE_S", 10.0)
     use_alarm = getattr(prop, "ENGINE", "") != "threadsim"
     if use_alarm:
-        signal.signal(signal.SIGALRM, _on_alarm)
-        signal.setitimer(signal.ITIMER_REAL, limit)
+        signal.signal(signal.SIGPROF, _on_alarm)
+        signal.setitimer(signal.ITIMER_PROF, limit)
     try:
         return prop.execute(trace, rng)
     except Hang:
         return {"status": VIOLATION, "oracle": "liveness", "klass": "operation-did-not-terminate",
-                "detail": f"the run did not finish within {limit}s of wall time (typical run: milliseconds); "
+                "detail": f"the run burned {limit}s of CPU time without finishing (typical run: milliseconds); "
                           f"last op index: {trace.get('_progress')}",
                 "digest": "hang", "stats": {}, "nontrivial": False}
     finally:
         if use_alarm:
-            signal.setitimer(signal.ITIMER_REAL, 0)
+            signal.setitimer(signal.ITIMER_PROF, 0)
 
 
 class Violation(Exception):
@@ -149,6 +151,12 @@ def run_in_child(fn, arg, wall_s=30.0):
             os.close(rfd)
             try:
                 faulthandler.dump_traceback_later(max(1.0, wall_s - 1.0), exit=False)
+            except Exception:
+                pass
+            try:
+                # a runaway loop in the code under test must not take the machine down
+                import resource
+                resource.setrlimit(resource.RLIMIT_AS, (3 << 30, 3 << 30))
             except Exception:
                 pass
             try:
